@@ -109,7 +109,7 @@ func seedFor(seed int64, id, rep int, salt string) int64 {
 }
 
 // normalName draws a component that is "normal" for every layer involved: not empty, ".", "..", no
-// separator, no colon, no NUL, not starting with ".." (LoadArchiveFiles rejects any name that begins so).
+// separator, no colon, no NUL; one in ten begins with two dots ("..x": an ordinary name).
 func normalName(r *rand.Rand, avoid map[string]bool) string {
 	for {
 		var sb strings.Builder
@@ -122,7 +122,10 @@ func normalName(r *rand.Rand, avoid map[string]bool) string {
 			}
 		}
 		s := sb.String()
-		if s == "." || s == ".." || strings.HasPrefix(s, "..") || avoid[s] || avoid[strings.ToLower(s)] {
+		if r.Intn(10) == 0 {
+			s = ".." + s // a name that merely BEGINS with two dots is a normal component (loader: /repo 653de95)
+		}
+		if s == "." || s == ".." || avoid[s] || avoid[strings.ToLower(s)] {
 			continue
 		}
 		if strings.TrimSpace(s) != s {
